@@ -3,7 +3,7 @@
 
 use std::collections::BTreeMap;
 
-use chainsim::deploy::{ata, token_balance, Dep};
+use chainsim::deploy::{token_balance, Dep};
 use chainsim::rt::{TxOpts, TxOutcome, World};
 use serde::{Deserialize, Serialize};
 use simcore::{Components, Obs, Rng, Scenario, Tier};
@@ -163,7 +163,7 @@ impl<'a> Sim<'a> {
     }
 
     fn gm_balance(&self, user: usize, market: usize) -> u64 {
-        token_balance(&self.w, &ata(&self.d.users[user], &self.d.markets[market].market_token))
+        token_balance(&self.w, &self.a.gm_atas[user][market])
     }
 
     fn now(&self) -> i64 {
@@ -187,7 +187,8 @@ impl<'a> Sim<'a> {
         let total = (end - start) as u128;
         let integral = cum_now - snap;
         if total == 0 && integral > 0 {
-            // average over zero elapsed seconds is undefined (only reachable after a clock regression)
+            // the average over zero elapsed seconds is undefined (reachable through the forged-snapshot fork
+            // probe in the stake's own second, or after a clock regression)
             obs.probe("zero_duration_positive_integral");
             return true;
         }
@@ -243,7 +244,7 @@ impl<'a> Sim<'a> {
         let owner = self.d.users[u];
         let pre_bal = self.gm_balance(u, m);
         let now = self.now();
-        let out = self.w.process_tx(&[stake_ix(self.d, self.a, &owner, m, &keys, p.pid as u64, amount)], opts);
+        let out = self.w.process_tx(&[stake_ix(self.d, self.a, &owner, &self.a.gm_atas[u][m], m, &keys, p.pid as u64, amount)], opts);
         obs.outcome("owner", "stake", &out.class());
         obs.event(|| format!("stake {p:?} amount={amount} -> {}", out.class()));
         self.note_fault(obs, &out);
@@ -425,7 +426,7 @@ impl<'a> Sim<'a> {
         let keys = self.keys(p);
         let s = self.signer_of(p, who);
         let amount = self.resolve_amt(p, amt);
-        let ix = unstake_ix(self.d, self.a, &self.d.users[s], &self.a.gt_users[s], m, &keys, p.pid as u64, amount);
+        let ix = unstake_ix(self.d, self.a, &self.d.users[s], &self.a.gt_users[s], &self.a.gm_atas[s][m], m, &keys, p.pid as u64, amount);
         let mp = self.pos.get(&p).cloned();
         if let (Some(pr), Who::Owner, None, Some(mp)) = (probe, who, opts.fail_cpi_at, &mp) {
             if amount > 0 && amount <= mp.amount && (self.claim_enabled || amount == mp.amount) {
@@ -648,7 +649,7 @@ impl<'a> Sim<'a> {
         let m = p.market as usize;
         let keys = self.keys(p);
         let from = self.d.users[N_USERS - 1];
-        let ix = spl_token::instruction::transfer(&spl_token::ID, &ata(&from, &self.d.markets[m].market_token), &keys.1, &from, &[], amount).unwrap();
+        let ix = spl_token::instruction::transfer(&spl_token::ID, &self.a.gm_atas[N_USERS - 1][m], &keys.1, &from, &[], amount).unwrap();
         let out = self.w.process(ix);
         obs.outcome("attacker", "dust", &out.class());
         obs.event(|| format!("dust {p:?} amount={amount} -> {}", out.class()));
